@@ -432,7 +432,7 @@ def run(db: DB, rep: Report) -> None:
     _check_chain(db, rep, fg, tn)
 
     # ---- K7 per-level dependence decisions use per-level facts -----------------------
-    rep.rule("K7", "the leader-fiber dependence of a level is decided from that level alone", 1)
+    rep.rule("K7", "the leader-fiber dependence of a level is decided from that level alone", 2)
     bd = fg.methods.get("__build_dyn_part")
     if bd is None:
         raise AnalysisError("FlowGraph.__build_dyn_part not found")
@@ -467,6 +467,45 @@ def run(db: DB, rep: Report) -> None:
                                     (paths.load_names(p_.iter) & paths.load_names(lp.iter)):
                                 aggregates.append(nm)
                             p_ = getattr(p_, "parent", None)
+            # and the decision does depend on the level: some name in the guard is computed inside
+            # the loop from the loop variable
+            lvars = {x.id for x in ast.walk(lp.target) if isinstance(x, ast.Name)}
+            dep = False
+            for t, pol in paths.guards(e, stop=lp):
+                for nm in paths.load_names(t):
+                    if nm in lvars:
+                        dep = True
+                    for st, v in paths.defs_of(bd.node, nm):
+                        inside = any(p_ is lp for p_ in _parents_of(st, bd.node))
+                        if inside and v is not None:
+                            nms, _ = paths.backward_slice(bd.node, paths.load_names(v), with_control=False)
+                            if (nms | paths.load_names(v)) & lvars:
+                                dep = True
+            # sharper: the name compared with the tensor's own root (the leader) is per-level
+            roots = {n_.targets[0].id for n_ in walk_no_nested(bd.node) if isinstance(n_, ast.Assign) and
+                     isinstance(n_.targets[0], ast.Name) and norm(n_.value).endswith(".root_name()")}
+            for t, pol in paths.guards(e, stop=lp):
+                for atom, p_ in paths.conjuncts(t, pol):
+                    if isinstance(atom, ast.Compare) and len(atom.ops) == 1:
+                        sides = [atom.left, atom.comparators[0]]
+                        if any(isinstance(x, ast.Name) and x.id in roots for x in sides):
+                            for x in sides:
+                                if isinstance(x, ast.Name) and x.id not in roots:
+                                    per_level = False
+                                    for st, v in paths.defs_of(bd.node, x.id):
+                                        inside = any(q_ is lp for q_ in _parents_of(st, bd.node))
+                                        if inside and v is not None:
+                                            nms, _ = paths.backward_slice(bd.node, paths.load_names(v),
+                                                                          with_control=False)
+                                            if (nms | paths.load_names(v)) & lvars:
+                                                per_level = True
+                                    dep = dep and per_level
+            rep.check("K7", dep, db.loc(e), "FlowGraph." + bd.name, "leader-edge-depends-on-level",
+                      "the decision about %s depends on the level being connected" % norm(e)[:40],
+                      "whether the partitioning of a level waits for a leader's fiber does not depend on that "
+                      "level (no name in the guard is computed from the loop variable %s): the leader of "
+                      "another level decides, so a follower split can precede the fiber it follows" %
+                      sorted(lvars))
             rep.check("K7", not aggregates, db.loc(e), "FlowGraph." + bd.name, "leader-edge-guard",
                       "the edge %s is decided from facts of its own level" % norm(e)[:50],
                       "whether the partitioning of a level waits for the leader's fiber (%s) is decided from %s, "
@@ -475,6 +514,53 @@ def run(db: DB, rep: Report) -> None:
                       "reads is bound" % (norm(e)[:50], sorted(set(aggregates))))
     if n_k7 < 1:
         raise AnalysisError("leader-fiber edge of __build_dyn_part not found")
+
+    # ---- K8 a swizzle / partition node depends on exactly the ranks it names ---------
+    rep.rule("K8", "a swizzle or partition node waits for exactly the ranks it is constructed with", 5)
+    n_k8 = 0
+    for f in builders:
+        for n in walk_no_nested(f.node):
+            if not (isinstance(n, ast.Assign) and len(n.targets) == 1 and isinstance(n.targets[0], ast.Name)
+                    and isinstance(n.value, ast.Call) and isinstance(n.value.func, ast.Name)
+                    and n.value.func.id in ("SwizzleNode", "PartNode") and len(n.value.args) >= 2):
+                continue
+            local = n.targets[0].id
+            ranks_arg = n.value.args[1]
+            want = norm(ranks_arg)
+            for w in ("list(%s)", "%s.copy()", "tuple(%s)"):
+                pass
+            base = want
+            if isinstance(ranks_arg, ast.Call) and isinstance(ranks_arg.func, ast.Name) and \
+                    ranks_arg.func.id in ("list", "tuple") and ranks_arg.args:
+                base = norm(ranks_arg.args[0])
+            if isinstance(ranks_arg, ast.Call) and isinstance(ranks_arg.func, ast.Attribute) and \
+                    ranks_arg.func.attr == "copy":
+                base = norm(ranks_arg.func.value)
+            # loops that add RankNode(_, x) -> local
+            for lp in [x for x in walk_no_nested(f.node) if isinstance(x, ast.For)]:
+                edges = [e for s_ in lp.body for e in ast.walk(s_) if isinstance(e, ast.Call) and
+                         isinstance(e.func, ast.Attribute) and e.func.attr == "add_edge" and len(e.args) >= 2
+                         and isinstance(e.args[1], ast.Name) and e.args[1].id == local and
+                         norm(e.args[0]).startswith("RankNode(")]
+                if not edges:
+                    continue
+                # the node must be the one constructed (nearest preceding construction of that local)
+                if paths.reaching_def(local, lp, f.node) is not n.value and \
+                        not any(p_ is n.parent for p_ in _parents_of(lp, f.node)) and \
+                        paths.block_of(n)[2] is not paths.block_of(lp)[2]:
+                    continue
+                if paths.reaching_def(local, lp, f.node) is not None and \
+                        paths.reaching_def(local, lp, f.node) is not n.value:
+                    continue
+                n_k8 += 1
+                it = norm(lp.iter)
+                rep.check("K8", it == base, db.loc(lp), "FlowGraph." + f.name, "rank-deps:%s.%s" % (f.name, local),
+                          "%s = %s(..., %s, ...) waits for RankNodes of %s" % (local, n.value.func.id, want, it),
+                          "FlowGraph.%s builds %s over the ranks %s but makes it wait for the ranks of %s: it "
+                          "can be scheduled before the statement that creates one of the ranks it reads" %
+                          (f.name, n.value.func.id, want, it))
+    if n_k8 < 5:
+        raise AnalysisError("fewer than 5 rank-dependence loops found (%d)" % n_k8)
 
     # ---- K4 hoist guard --------------------------------------------------------
     rep.rule("K4", "hoisting is guarded by non-descendance of the processed loop and inserts at its index", 1)
@@ -562,6 +648,13 @@ def run(db: DB, rep: Report) -> None:
                       (name, "/".join(sorted(ks)), f.name,
                        "no incoming edge" if not has_in else "no outgoing edge",
                        "top" if not has_in else "bottom"))
+
+
+def _parents_of(n: ast.AST, stop: ast.AST):
+    p = getattr(n, "parent", None)
+    while p is not None and p is not stop:
+        yield p
+        p = getattr(p, "parent", None)
 
 
 def _check_chain(db: DB, rep: Report, fg: ClassInfo, tn: FuncInfo) -> None:
@@ -681,6 +774,12 @@ def _check_hoist(db: DB, rep: Report, fg: ClassInfo) -> None:
             and n.func.attr == "insert" and norm(n.func.value) == "self.sorted"]
     pops = [n for n in walk_no_nested(fn) if isinstance(n, ast.Call) and isinstance(n.func, ast.Attribute)
             and n.func.attr in ("pop", "remove") and norm(n.func.value) == "self.sorted"]
+    slice_ins = [n for n in walk_no_nested(fn) if isinstance(n, ast.Assign) and
+                 isinstance(n.targets[0], ast.Subscript) and norm(n.targets[0].value) == "self.sorted" and
+                 isinstance(n.targets[0].slice, ast.Slice)]
+    if slice_ins and not inss:
+        _check_hoist_runs(db, rep, h, slice_ins, dels)
+        return
     if not inss or not (dels or pops):
         raise AnalysisError("relocation statements of __hoist not found")
     # the loop over ranks
@@ -758,6 +857,67 @@ def _check_hoist(db: DB, rep: Report, fg: ClassInfo) -> None:
                   "LoopNode(%s)) for the loop being processed" % rank_var)
 
 
+def _check_hoist_runs(db: DB, rep: Report, h: FuncInfo, slice_ins, dels) -> None:
+    """__hoist written to move runs of consecutive nodes: self.sorted[L:L] = run."""
+    fn = h.node
+    rank_loops = [n for n in walk_no_nested(fn) if isinstance(n, ast.For) and
+                  "get_ranks" in paths.called_names([n.iter])]
+    if len(rank_loops) != 1 or not isinstance(rank_loops[0].target, ast.Name):
+        raise AnalysisError("rank loop of __hoist not found")
+    rl = rank_loops[0]
+    rank_var = rl.target.id
+    rep.check("K4", "reversed" in paths.called_names([rl.iter]), db.loc(rl), h.short, "hoist:innermost-first",
+              "loops are processed innermost first (reversed loop order)",
+              "__hoist no longer processes the innermost loop first")
+    desc = {n.targets[0].id for n in walk_no_nested(rl) if isinstance(n, ast.Assign) and
+            isinstance(n.targets[0], ast.Name) and isinstance(n.value, ast.Call) and
+            norm(n.value.func).endswith("descendants") and len(n.value.args) == 2 and
+            norm(n.value.args[1]) == "LoopNode(%s)" % rank_var}
+    idx = {n.targets[0].id for n in walk_no_nested(rl) if isinstance(n, ast.Assign) and
+           isinstance(n.targets[0], ast.Name) and isinstance(n.value, ast.Call) and
+           norm(n.value.func) == "self.sorted.index" and norm(n.value.args[0]) == "LoopNode(%s)" % rank_var}
+    for ins in slice_ins:
+        sl = ins.targets[0].slice
+        at_loop = isinstance(sl.lower, ast.Name) and isinstance(sl.upper, ast.Name) and \
+            sl.lower.id == sl.upper.id and sl.lower.id in idx
+        run = ins.value
+        run_def = paths.reaching_def(run.id, ins, fn) if isinstance(run, ast.Name) else None
+        bounds_ok = False
+        upper = None
+        if isinstance(run_def, ast.Subscript) and norm(run_def.value) == "self.sorted" and \
+                isinstance(run_def.slice, ast.Slice) and isinstance(run_def.slice.upper, ast.Name):
+            upper = run_def.slice.upper.id
+            # the run's end is found by a loop that stops at the first descendant
+            for w in [n for n in walk_no_nested(rl) if isinstance(n, ast.While)]:
+                tests = [norm(a) for a, p in paths.conjuncts(w.test, True) if p]
+                if any(("self.sorted[%s] not in" % upper) in t and any(d in t for d in desc) for t in tests) and \
+                        any(isinstance(x, ast.AugAssign) and norm(x.target) == upper for x in w.body):
+                    bounds_ok = True
+        rep.check("K4", bounds_ok and bool(desc), db.loc(ins), h.short, "hoist-guard:run",
+                  "the hoisted run ends at the first node that is a descendant of LoopNode(%s)" % rank_var,
+                  "the run of nodes hoisted above the loop is not delimited by a 'not in descendants("
+                  "LoopNode(%s))' scan: a statement can be hoisted above a loop it depends on" % rank_var)
+        # the insertion point advances by the length of the run
+        _, _, blk = paths.block_of(ins)
+        adv = None
+        seen = False
+        for s_ in blk:
+            if s_ is ins:
+                seen = True
+                continue
+            if seen and isinstance(s_, ast.AugAssign) and isinstance(s_.op, ast.Add) and \
+                    isinstance(sl.lower, ast.Name) and norm(s_.target) == sl.lower.id:
+                adv = norm(s_.value)
+        lower = norm(run_def.slice.lower) if isinstance(run_def, ast.Subscript) and run_def.slice.lower else "?"
+        good = adv in ("len(%s)" % norm(run), "%s - %s" % (upper, lower))
+        rep.check("K4", at_loop and good, db.loc(ins), h.short, "hoist-insert:run",
+                  "the run is inserted at the loop's own index, which advances by the run's length (%s)" % adv,
+                  "the hoisted run is inserted at %s and the insertion point then advances by %s instead of "
+                  "the length of the run: a later hoisted run is spliced into the middle of an earlier one, "
+                  "so hoisted statements are reordered across their own dependences" %
+                  (norm(ins.targets[0]), adv))
+
+
 def paths_enclosing(n: ast.AST) -> ast.stmt:
     while not isinstance(n, ast.stmt):
         n = n.parent
@@ -805,6 +965,14 @@ def mutants(db: DB):
           "        chain.append(OtherNode(\"Body\"))\n        for rank in loop_order:\n            chain.append(LoopNode(rank))", "K3"),
         M("recursion does not skip consumed nodes", hf, "                code.add(SFor(payload, expr, body))\n                i += j",
           "                code.add(SFor(payload, expr, body))", "K3"),
+        M("merger swizzle waits for the declared ranks", fg,
+          "                for rank in init_ranks:\n                    self.graph.add_edge(\n                        RankNode(\n                            root,\n                            rank),\n                        metrics_swizzle_node)",
+          "                for rank in tensor.get_init_ranks():\n                    self.graph.add_edge(\n                        RankNode(\n                            root,\n                            rank),\n                        metrics_swizzle_node)",
+          "K8"),
+        M("leader looked up once per rank", fg,
+          "                leader = part.get_leader(src, dsts[-1])\n",
+          "                leader = part.get_leader(partitioning[0], part.partition_names((partitioning[0],), False)[-1])\n",
+          "K7"),
         M("leader set accumulated over all levels", fg,
           "        # Connect them to the relevant destination ranks\n        for srcs in src_ranks:",
           "        leaders = set()\n        for srcs0 in src_ranks:\n            if len(srcs0) == 1:\n                leaders.add(part.get_leader(srcs0[0], part.partition_names(srcs0, False)[-1]))\n\n        # Connect them to the relevant destination ranks\n        for srcs in src_ranks:",
@@ -844,6 +1012,14 @@ def mutants(db: DB):
         M("get_payload has no successor", fg,
           "            self.graph.add_edge(\n                get_payload_node, FiberNode(\n                    tensor.fiber_name()))\n",
           "            pass\n", ("K5", "K6")),
+        M("benign: hoist moves whole runs, index advanced by the run length", fg,
+          "                if self.sorted[i] not in descendants:\n                    node = self.sorted[i]\n                    del self.sorted[i]\n                    self.sorted.insert(loop, node)\n                    loop += 1\n\n                i += 1",
+          "                j = i\n                while j < end and self.sorted[j] not in descendants:\n                    j += 1\n                if j > i:\n                    run = self.sorted[i:j]\n                    del self.sorted[i:j]\n                    self.sorted[loop:loop] = run\n                    loop += len(run)\n                i = j + 1",
+          (), benign=True),
+        M("hoist moves whole runs, index advanced by one", fg,
+          "                if self.sorted[i] not in descendants:\n                    node = self.sorted[i]\n                    del self.sorted[i]\n                    self.sorted.insert(loop, node)\n                    loop += 1\n\n                i += 1",
+          "                j = i\n                while j < end and self.sorted[j] not in descendants:\n                    j += 1\n                if j > i:\n                    run = self.sorted[i:j]\n                    del self.sorted[i:j]\n                    self.sorted[loop:loop] = run\n                    loop += 1\n                i = j + 1",
+          "K4"),
         M("benign: hoist rewritten with pop", fg,
           "                    node = self.sorted[i]\n                    del self.sorted[i]\n",
           "                    node = self.sorted.pop(i)\n", (), benign=True),
